@@ -15,6 +15,7 @@ type property struct {
 	outside     string
 	assumptions []string
 	paths       map[string]int
+	sched       bool // harnesses start goroutines: native replay follows the recorded schedule
 }
 
 func (p *property) cases(tier string, seed int) []symx.CaseSpec { return p.gen(tier, seed) }
@@ -519,6 +520,9 @@ func init() {
 			out = append(out, cs("VH_C20", 3, 2, 0, 1, 1, 0, 3, 0, 1, 1, 0, 3, 0, 1, 1, 0, 0))
 			out = append(out, cs("VH_C20", 3, 2, 0, 1, 1, 0, 5, 0, 1, 1, 0, 2))
 			out = append(out, cs("VH_C20", 2, 2, 3, 1, 1, 0, 3, 0, 1, 0, 0, 0))
+			for k := 0; k <= 5; k++ {
+				out = append(out, cs("VH_C20_Named", k))
+			}
 			n := q(tier, 120, 1500)
 			r := uint64(seed)*2654435761 + 20
 			for i := 0; i < n; i++ {
@@ -536,7 +540,7 @@ func init() {
 			return out
 		},
 		boundsText: map[string]string{
-			"quick":    "3 hand-picked + 120 seeded trees of depth<=3, width<=3 (single-child chains favoured) over AND/OR/NOT/LIST with text/int leaves, Conditions holding text or Stacks, empty stacks, mutex-enabled nodes; the parenthetical bit of every Stack and Condition and the index-option bits of every Stack are solver variables",
+			"quick":    "6 hand-built shapes (folded / symbol-bearing NOT wrappers, mutex-enabled envelopes at every slot, chains; parenthetical bits symbolic) + 3 hand-picked + 120 seeded trees of depth<=3, width<=3 (single-child chains favoured) over AND/OR/NOT/LIST with text/int leaves, Conditions holding text or Stacks, empty stacks, mutex-enabled nodes, case-folded and symbol-bearing nodes; the parenthetical bit of every Stack and Condition and the index-option bits of every Stack are solver variables",
 			"thorough": "3 hand-picked + 1500 seeded trees of depth<=4",
 		},
 		outside: "trees outside the sampled shapes; aliases as nodes (C12)",
@@ -666,6 +670,32 @@ func init() {
 		},
 		outside: "leaves longer than 2 symbolic bytes; lead-once on LIST stacks (statement silent); nil / unknown-typed elements (render as UNKNOWN, outside the statement's domain); presentation policies (C14); aliases (C12)",
 		assumptions: []string{"where the statement does not say where blanks go, the reference grammar is the one pinned by the repository's tests (leaves padded unless no-padding; nested renderings inserted as they are; word operators always blank-separated; symbols/delimiters blank-separated only under padding; LIST without delimiter: one blank under padding, nothing under no-padding)"},
+	})
+
+	register(&property{
+		id:    "C10",
+		sched: true,
+		gen: func(tier string, seed int) []symx.CaseSpec {
+			var out []symx.CaseSpec
+			nops := q(tier, 6, 8)
+			for n := 0; n <= q(tier, 2, 3); n++ {
+				for _, fifo := range []int{0, 1} {
+					for _, ucap := range []int{0, n + 1} {
+						out = append(out, cs("VH_C10", n, 2, 1, nops, ucap, fifo))
+					}
+				}
+			}
+			if tier == "thorough" {
+				out = append(out, cs("VH_C10", 1, 3, 1, 4, 0, 0), cs("VH_C10", 1, 2, 2, 3, 0, 0), cs("VH_C10", 1, 2, 2, 3, 2, 1))
+			}
+			return out
+		},
+		boundsText: map[string]string{
+			"quick":    "2 goroutines x 1 operation each from {Push, Pop, Insert, Remove, Replace, Swap} on a mutex-enabled LIST of length 0..2, LIFO and FIFO, without capacity and with capacity n+1; every interleaving at lock-acquisition granularity (scheduler choices are decisions of the path search); index arguments symbolic in [-1, n+2]",
+			"thorough": "as quick with all 8 mutators and length 0..3; plus 3 goroutines x 1 operation from {Push, Pop, Insert, Remove} and 2 goroutines x 2 operations from {Push, Pop, Insert} on a stack of length 1",
+		},
+		outside: "free-running executions on 16 cores and weak-memory effects (the engine is sequentially consistent and pre-empts only at lock points; unsynchronised accesses between lock points are reported by the lockset log instead and confirmed natively under the Go race detector); index options; more goroutines or longer sequences",
+		assumptions: []string{"context switches only just before sync.Mutex.Lock, after sync.Mutex.Unlock, at goroutine end and in the join", "lockset discipline: two accesses to the same shared cell from different goroutines, at least one a write, not both made while holding a mutex, are a race candidate"},
 	})
 }
 
